@@ -202,6 +202,15 @@ fn runtime() -> Runtime<NoCtx> {
         fn use_tr(t: Val<Tr24>) {
             log(json!(["use", if t.valid() { t.tag as i64 } else { -1 }]));
         }
+        impl Val<Tr24> {
+            /// the conversion f-strings call for a value of this type: a host function, so its position in
+            /// the host-call sequence is observable
+            fn to_string(t: Val<Tr24>) -> RotoString {
+                let tag = if t.valid() { t.tag as i64 } else { -1 };
+                log(json!(["trstr", tag]));
+                RotoString::from(format!("T{tag}").as_str())
+            }
+        }
     };
     Runtime::from_lib(lib).unwrap()
 }
